@@ -81,6 +81,12 @@ Proof.
         -- destruct I3 as [I3 | [I3 | I3]]; [left; exact I3 | right; left; exact I3 | right; right; lia].
 Qed.
 
+Lemma loop1_le n : forall fuel m0, (m0 <= n - 1)%nat -> (loop1 fuel sizes n m0 <= n - 1)%nat.
+Proof.
+  induction fuel as [|f IH]; intros m0 Hm0; cbn [loop1]; [exact Hm0|].
+  destruct (_ || _) eqn:E; [exact Hm0|]. apply orb_false_iff in E as [_ E]. apply Nat.leb_gt in E. apply IH. lia.
+Qed.
+
 Lemma loop2_spec : forall fuel mid, let r := loop2 fuel sizes mid in
   (r <= mid)%nat /\ ((r < mid)%nat -> LEAF_CAP < Lm (r + 1)) /\ (Lm r <= LEAF_CAP \/ (r <= 1)%nat \/ (r + fuel = mid)%nat).
 Proof.
@@ -108,11 +114,7 @@ Proof.
   destruct (loop2_spec n m1) as (B1 & B2 & B3). set (m2 := loop2 n sizes m1) in *.
   assert (HR1 : Rm m1 <= LEAF_CAP).
   { destruct A3 as [A3 | [A3 | A3]]; [exact A3 | pose proof (Rm_last m1 ltac:(lia)); lia | pose proof (Rm_last m1 ltac:(lia)); lia]. }
-  assert (Hm1n : (m1 <= n - 1)%nat).
-  { (* loop1 never walks past n - 1 *)
-    clear - Hm0. unfold m1. generalize n at 1 as fuel. intros fuel. revert m0 Hm0.
-    induction fuel as [|f IH]; intros m0 Hm0; cbn [loop1]; [exact Hm0|].
-    destruct (_ || _) eqn:E; [exact Hm0|]. apply orb_false_iff in E as [_ E]. apply Nat.leb_gt in E. apply IH. lia. }
+  assert (Hm1n : (m1 <= n - 1)%nat) by (apply loop1_le; exact Hm0).
   assert (Hfit2 : Lm m2 <= LEAF_CAP /\ Rm m2 <= LEAF_CAP).
   { destruct (Nat.eq_dec m1 m0) as [E10 | E10].
     - (* loop1 did not move *)
